@@ -11,8 +11,8 @@
   (`pad`-to-the-same-length is the identity).  Where an exactness theorem is still carried on a named
   hypothesis by its own property, the route theorem is `_partial` and carries the same hypothesis:
 
-    H_recip            (C02) — `reciprocalImpl = reciprocalSpec` on normalised divisors: limb division routes
-    DivRemExact f      (C02, full-width division not yet proved there) — `div_rem` ct vs vartime
+    (C02's `H_recip` and the exactness of both full-width division loops are PROVED now: the division routes
+     `div_rem_ct_eq_vartime`, `rem_limb_eq_div_rem_limb` are full)
     OddGcdSpec og w    (C10) — the odd-operand safegcd result: `gcd` ct vs vartime
 
   §1 constant-time = `_vartime`      §2 boxed (precision P) = fixed of the same width, result precision
@@ -128,17 +128,24 @@ def DivRemExact (f : List Nat → List Nat → List Nat × List Nat) : Prop :=
   ∀ n d : List Nat, WF n → WF d → n.length = d.length → 0 < val d →
     f n d = (toLimbs n.length (val n / val d), toLimbs d.length (val n % val d))
 
-/- FULL STATEMENT (unproved): ∀ n d, WF n → WF d → n.length = d.length → 0 < val d →
-     Div.divRemCt n d = Div.divRemVartime n d      (needs C02's T02.4 for both loops) -/
-/-- `div_rem` = `div_rem_vartime` (and hence `rem` / `wrapping_div` and their vartime forms) GIVEN the
-    exactness of both loops (C02, in progress: carries `H_recip` there) -/
-theorem div_rem_ct_eq_vartime_partial (H_c02_ct : DivRemExact Div.divRemCt)
-    (H_c02_vartime : DivRemExact Div.divRemVartime) {n d : List Nat} (hn : WF n) (hd : WF d)
+/-- C02 proves `DivRemExact` for both full-width routines (no hypothesis left there: `P02.reciprocal_exact`). -/
+theorem divRemCt_is_exact : DivRemExact Div.divRemCt := by
+  intro n d hn hd hl hd0
+  rw [P02.divRemCt_exact hn hd hl.symm (by omega), hl]
+
+theorem divRemVartime_is_exact : DivRemExact Div.divRemVartime := by
+  intro n d hn hd _ hd0
+  exact P02.divRemVartime_exact hn hd (by omega)
+
+/-- `div_rem` = `div_rem_vartime` (and hence `rem` / `wrapping_div` and their vartime forms): both loops are
+    exact (C02: `divRemCt_exact`, `divRemVartime_exact`), so they return the same limbs. FULL (the statement
+    DESIGN §6 C15 planned as `_partial` while C02 still carried `H_recip`). -/
+theorem div_rem_ct_eq_vartime {n d : List Nat} (hn : WF n) (hd : WF d)
     (hl : n.length = d.length) (hd0 : 0 < val d) :
     Div.divRemCt n d = Div.divRemVartime n d ∧ Div.urem n d = Div.remVartime n d ∧
     Div.wrappingDiv n d = Div.wrappingDivVartime n d := by
   have e : Div.divRemCt n d = Div.divRemVartime n d := by
-    rw [H_c02_ct n d hn hd hl hd0, H_c02_vartime n d hn hd hl hd0]
+    rw [divRemCt_is_exact n d hn hd hl hd0, divRemVartime_is_exact n d hn hd hl hd0]
   exact ⟨e, by unfold Div.urem Div.remVartime; rw [e], by unfold Div.wrappingDiv Div.wrappingDivVartime; rw [e]⟩
 
 /-! ## §2 boxed (precision P) = fixed of the same width; documented precision of boxed results -/
@@ -410,10 +417,10 @@ theorem limb_div_precomputed_eq_oneshot (u : List Nat) (d : Nat) :
     Div.boxedRemLimb u d = Div.boxedRemLimbWithReciprocal u (Div.Reciprocal.new d) := ⟨rfl, rfl, rfl⟩
 
 /-- the remainder-only loop returns the remainder of the quotient loop (`rem_limb` = `div_rem_limb().1`),
-    GIVEN `H_recip` (C02's carried hypothesis on the 64-bit reciprocal Newton iteration) -/
-theorem rem_limb_eq_div_rem_limb_partial (H_recip : Div.HRecip) {d : Nat} (hd0 : 0 < d) (hd : d < B)
+    (C02's former hypothesis `H_recip` on the 64-bit reciprocal Newton iteration is proved: `P02.reciprocal_exact`) -/
+theorem rem_limb_eq_div_rem_limb {d : Nat} (hd0 : 0 < d) (hd : d < B)
     {u : List Nat} (hu : WF u) : Div.remLimb u d = (Div.divRemLimb u d).2 := by
-  have h := P02.divRemLimb_exact_partial H_recip hd0 hd hu
+  have h := P02.divRemLimb_exact hd0 hd hu
   rw [h.2.2, h.2.1]
 
 
